@@ -129,14 +129,19 @@ func H_C14_ivfpq() {
 	q := vVec("q", dim)
 	k := vInt("k")
 	nprobes := []int{0, 1}[vChoose("nprobes", 2)]
-	res, err := idx.NewSearch().WithQuery(q).WithK(k).WithNProbes(nprobes).Execute()
+	th := float32(0)
+	if n == 1 {
+		th = vF32("th")
+		vAssume(th >= 0)
+	}
+	res, err := idx.NewSearch().WithQuery(q).WithK(k).WithNProbes(nprobes).WithThreshold(th).Execute()
 	pq, perr := u.m.dist.Preprocess(vCopy(q))
 	vAssert((err == nil) == (perr == nil), "search-error-iff-query-rejected")
 	if err != nil {
 		return
 	}
 	if nprobes == 0 || nlist == 1 {
-		vCheckExact(res, u.m.eligible(pq, 0, nil), k)
+		vCheckExact(res, u.m.eligible(pq, th, nil), k)
 		vCover("full-probe")
 		return
 	}
@@ -156,7 +161,7 @@ func H_C14_ivfpq() {
 			sub.entries = append(sub.entries, *e)
 		}
 	}
-	vCheckExact(res, sub.eligible(pq, 0, nil), k)
+	vCheckExact(res, sub.eligible(pq, th, nil), k)
 	vCover("partial-probe")
 }
 
